@@ -402,6 +402,12 @@ class FakeRandom:
         return self.i
 
 
+# the dict buffers take their keys as an iterable: here a set (no order of its own, and another iteration order in
+# a process with another hash seed); the second column is a function of the first, so that a value coming back
+# under the wrong key or next to the wrong partner is seen
+DICT_KEYS = {"a", "b"}
+
+
 def make_buffer(name: str, kind: str, cap: int, p: str, fake_random: FakeRandom, draws: dict):
     """A real built-in buffer; for the random-replacement kinds `add` is wrapped at instance level
     so that the scripted `random` module hands out the draws that belong to the sample."""
@@ -410,9 +416,9 @@ def make_buffer(name: str, kind: str, cap: int, p: str, fake_random: FakeRandom,
     if kind == "seq":
         return SequentialBuffer(cap)
     if kind == "dseq":
-        return DictSequentialBuffer(["a"], cap)
+        return DictSequentialBuffer(DICT_KEYS, cap)
     buf = (RandomReplacementBuffer(cap, replace_probability=float(F(p))) if kind == "rrb"
-           else DictRandomReplacementBuffer(["a"], cap, replace_probability=float(F(p))))
+           else DictRandomReplacementBuffer(DICT_KEYS, cap, replace_probability=float(F(p))))
     orig_add = buf.add
 
     def add(data):
@@ -425,11 +431,16 @@ def make_buffer(name: str, kind: str, cap: int, p: str, fake_random: FakeRandom,
 
 
 def sample_of(kind: str, x: int):
-    return {"a": x} if kind in ("dseq", "drrb") else x
+    return {"b": x + 1000, "a": x} if kind in ("dseq", "drrb") else x
 
 
 def data_of(kind: str, got) -> list[int]:
-    return list(got["a"]) if kind in ("dseq", "drrb") else list(got)
+    if kind in ("dseq", "drrb"):
+        a, b = list(got["a"]), list(got["b"])
+        if sorted(got) != ["a", "b"] or len(a) != len(b) or any(y != x + 1000 for x, y in zip(a, b)):
+            return [-10 ** 9] + a + b          # columns misaligned or under the wrong keys: never equal to anything expected
+        return a
+    return list(got)
 
 
 @contextlib.contextmanager
